@@ -152,9 +152,25 @@ func runTopo(e *Env) {
 		cfg.Timeout = 2500 * time.Millisecond
 	}
 	cfg.ConnectTimeout = 300 * time.Millisecond
+	if longTimeout {
+		cfg.ConnectTimeout = 5 * time.Second
+	}
 	cfg.ReconnectInterval = 0
 	cfg.ReconnectionPolicy = &gocql.ConstantReconnectionPolicy{MaxRetries: 1, Interval: 100 * time.Millisecond}
-	st.pol = &recPolicy{HostSelectionPolicy: gocql.RoundRobinHostPolicy(), known: map[string]*gocql.HostInfo{}}
+	var inner gocql.HostSelectionPolicy
+	polName := ""
+	switch tp.Weighted([]int{3, 2, 1, 1}) {
+	case 1:
+		inner, polName = gocql.TokenAwareHostPolicy(gocql.RoundRobinHostPolicy()), "token-aware/round-robin"
+	case 2:
+		inner, polName = gocql.TokenAwareHostPolicy(gocql.DCAwareRoundRobinPolicy("dc1")), "token-aware/dc-aware"
+	case 3:
+		inner, polName = gocql.DCAwareRoundRobinPolicy("dc1"), "dc-aware"
+	default:
+		inner, polName = gocql.RoundRobinHostPolicy(), "round-robin"
+	}
+	e.Note("policy", polName)
+	st.pol = &recPolicy{HostSelectionPolicy: inner, known: map[string]*gocql.HostInfo{}}
 	cfg.PoolConfig.HostSelectionPolicy = st.pol
 
 	cl.PeersHook = func(h *node.Host) []node.PeerRow {
@@ -184,8 +200,12 @@ func runTopo(e *Env) {
 		return rows
 	}
 	holdPeers := false
+	slowHost := "" // this node answers the handshake of new connections late
 	cl.SystemFateFn = func(sc *node.SConn, rec *node.ReqRec) node.Fate {
 		if holdPeers && rec.Req.Query == "SELECT * FROM system.peers" {
+			return node.Hold
+		}
+		if slowHost != "" && sc.C.Host == slowHost && !sc.Started {
 			return node.Hold
 		}
 		return node.Auto
@@ -225,21 +245,21 @@ func runTopo(e *Env) {
 			}
 		}
 		pick := func() *node.Host { return others[tp.Next(len(others))] }
-		ws := []int{3, 3, 2, 2, 2, 2, 1, 1, 2, 1, 2, 0, 2, 0}
+		ws := []int{3, 3, 2, 2, 2, 2, 1, 1, 2, 1, 2, 0, 2, 0, 0}
 		if st.splitAddrs && len(others) > 0 {
 			ws[11] = 3
 		}
 		if longTimeout {
-			ws[13] = 3
+			ws[13], ws[14] = 3, 3
 		}
 		if len(others) == 0 {
 			ws[1], ws[2], ws[3], ws[4], ws[6], ws[7] = 0, 0, 0, 0, 0, 0
 		}
 		if len(cl.Hosts) >= 6 {
-			ws[0], ws[13] = 0, 0
+			ws[0], ws[13], ws[14] = 0, 0, 0
 		}
 		if e.NoFaults {
-			ws = []int{1, 0, 0, 0, 0, 0, 0, 0, 1, 0, 0, 0, 0, 0}
+			ws = []int{1, 0, 0, 0, 0, 0, 0, 0, 1, 0, 0, 0, 0, 0, 0}
 		}
 		peersBefore := cl.PeerQueries
 		switch tp.Weighted(ws) {
@@ -430,6 +450,31 @@ func runTopo(e *Env) {
 				k.Probe("join-during-refresh")
 			}
 			holdPeers = false
+		case 14: // a node joins, is slow to answer its first handshake, and is reported gone
+			// before it does; then it answers
+			h := st.newHost()
+			cl.Hosts = append(cl.Hosts, h)
+			k.Rec("step join %s (slow handshake), leaves before its first connection is up", h.Addr)
+			k.Fault("topo.leave-during-first-dial")
+			slowHost = h.Addr
+			st.eventFor("TOPOLOGY_CHANGE", "NEW_NODE", h)
+			dialling := k.SettleUntil(4*time.Second, 20*time.Millisecond, cl.Process, func() bool {
+				for _, r := range cl.Held() {
+					if r.SC.C.Host == h.Addr {
+						return true
+					}
+				}
+				return false
+			})
+			if dialling {
+				st.removeModel(h)
+				k.Rec("  first connection waits for its handshake; %s leaves", h.Addr)
+				st.eventFor("TOPOLOGY_CHANGE", "REMOVED_NODE", h)
+				// both debounce windows pass while the handshake is still unanswered
+				k.SettleUntil(2500*time.Millisecond, 20*time.Millisecond, cl.Process, func() bool { return false })
+				k.Probe("leave-during-first-dial")
+			}
+			slowHost = ""
 		case 11: // same host id, same rpc address, new node-to-node address
 			h := pick()
 			st.nextIP++
@@ -625,6 +670,38 @@ func (st *topoState) compare(when string) {
 			k.Violate("C16", "C16/vanished-node-offered", "%s: the selection policy still offers id …%s which the cluster no longer reports", when, id[len(id)-4:])
 			return
 		}
+	}
+	// the policy's own host lists: a token-aware policy keeps every reported node (and builds
+	// its token ring from them), the round-robin based lists hold no node that vanished
+	if lists, ok := gocql.VerifPolicyHosts(st.pol.HostSelectionPolicy); ok {
+		var names []string
+		for n := range lists {
+			names = append(names, n)
+		}
+		sort.Strings(names)
+		for _, n := range names {
+			have := map[string]bool{}
+			for _, id := range lists[n] {
+				if have[id] {
+					k.Violate("C16", "C16/policy-host-list-differs", "%s: the policy's list %s names id …%s twice", when, n, id[len(id)-4:])
+					return
+				}
+				have[id] = true
+				if want[id] == nil {
+					k.Violate("C16", "C16/policy-host-list-differs", "%s: the policy's list %s still holds id …%s which the cluster no longer reports", when, n, id[len(id)-4:])
+					return
+				}
+			}
+			if strings.HasPrefix(n, "token-aware.") {
+				for id, h := range want {
+					if !have[id] {
+						k.Violate("C16", "C16/policy-host-list-differs", "%s: node %s (id …%s) is reported by the cluster and in the session's ring, but missing from the policy's list %s %v", when, h.Addr, id[len(id)-4:], n, lists[n])
+						return
+					}
+				}
+			}
+		}
+		k.Probe("policy-lists-checked")
 	}
 	k.Probe("compare-ok")
 }
